@@ -228,6 +228,60 @@ def op8_shape(ss, after=False):
     return False
 
 
+def _has_finish(ss):
+    return any(s['t'] == 'finish' or (s['t'] == 'if' and (any(_has_finish(br['b']) for br in s['br']) or _has_finish(s.get('els') or []))) for s in ss)
+
+
+def _leading_finish(ss, after):
+    """does the run of actions performed first when control reaches list ss (through blocks that need no input to be entered) hold a
+    finish?  `after`: the same for what follows the list.  Conservative."""
+    for i, s in enumerate(ss):
+        t = s['t']
+        if t == 'finish':
+            return True
+        if t == 'if':
+            if _has_finish([s]):
+                return True
+            continue                        # (an if without finish: treated as passed)
+        if _actionish(s):
+            continue
+        if t in ('match', 'append', 'wait', 'case'):
+            return False
+        rest = _leading_finish(ss[i + 1:], after)
+        if t == 'opt':
+            return rest                      # entering an optional needs a byte; skipping it leads on
+        if t in ('try', 'foreach'):
+            return _leading_finish(s['b'], rest)
+        if t == 'loop':
+            return _leading_finish(s['b'], False)
+        return True
+    return after
+
+
+def lazy_finish_shape(ss, after=False):
+    """shape of the known finding finish-after-skipped-construct: a `finish` is among the actions performed right after an optional has
+    been skipped (the regex case is open point OP8).  nmfu attaches such actions to the transitions of what follows only, so a byte that
+    is not one of those gives FAIL where the procedural reading finishes."""
+    for i, s in enumerate(ss):
+        nxt = _leading_finish(ss[i + 1:], after)
+        t = s['t']
+        if t == 'opt' and nxt:
+            return True
+        if t in ('opt', 'try', 'foreach'):
+            if lazy_finish_shape(s['b'], nxt) or (t == 'try' and lazy_finish_shape(s['h'], nxt)):
+                return True
+        elif t == 'loop':
+            if lazy_finish_shape(s['b'], _leading_finish(s['b'], False) or nxt):
+                return True
+        elif t == 'case':
+            if any(lazy_finish_shape(cl['b'], nxt) for cl in s['cl']):
+                return True
+        elif t == 'if':
+            if any(lazy_finish_shape(br['b'], nxt) for br in s['br']) or (s.get('els') and lazy_finish_shape(s['els'], nxt)):
+                return True
+    return False
+
+
 LEVELS = ('-O0', '-O1', '-O2', '-O3')
 
 
@@ -251,7 +305,7 @@ def programs(maxsize, stride=1, offset=0, minsize=1):
                 args.append('-fyield-support')
             if idx % 3 == 0 and not foreach_wait(b):
                 args.append('-feof-support')
-            ast['known_class'] = 'greedy-action-only-early' if greedy_early(b) else None
+            ast['known_class'] = 'greedy-action-only-early' if greedy_early(b) else ('finish-after-skipped-construct' if lazy_finish_shape(b) else None)
             ast['op8'] = op8_shape(b)
             yield idx, 'enum%d:%d' % (maxsize, idx), ast, genprog.spell_program(ast), args
 
